@@ -176,7 +176,32 @@ def _work(units):
     return acc.out()
 
 
+# weight vectors outside the partition's domain (negative, cancelling, huge, subnormal): the only thing the
+# contract still says about them is that `weights=w` and `cum_weights=accumulate(w)` are THE SAME CALL
+ODD = [[1e16, 1.0, -1e16], [-1e16, 1.0, 1e16, 1.0, 1.0], [1e308, 1e308], [0.1] * 10, [5e-324, 5e-324, 1.0], [2**60, 1, -(2**60), 0.5], [1, -1, 1], [3, -1, -1, 2],
+       [1e16, 1.0, 1.0, 1.0], [0.1, 0.2, 0.3, -0.6, 1e-17], [float(2**53), 1.0, 1.0], [-1.0, 2.0], [2.0, -1.0], [1e-9] * 64, [1e9, 1e-9] * 8, [0, 0, 0, 1e-300]]
+
+
+def _odd_work(units):
+    acc = progcheck.Acc()
+    fn = impl.binning.deterministic_choice
+    for w in units:
+        pop = [f"g{i}" for i in range(len(w))]
+        cum = list(accumulate(w))
+        for uid in IDS:
+            a, b = _call(fn, uid, pop, list(w)), _call(fn, uid, pop, cum_weights=list(cum))
+            acc.add("evaluations", 2)
+            acc.outcomes.add("odd:" + a[0])
+            if a[:2] != b[:2]:
+                acc.violation({"kind": "choice:odd-equiv", "case": {"pop": "list", "n": len(w), "weights": [repr(x) for x in w]}, "id": uid,
+                               "observed": short(repr((a, b))), "why": "weights=w and cum_weights=list(accumulate(w)) must be the same call (same element or same error)"})  # fmt: skip
+                break
+    return acc.out()
+
+
 def run(res, tier):
+    for w in pmap(_odd_work, ODD, chunk=4):
+        res.merge_worker(w)
     vs = list(ew.small_vectors(3 if tier == "quick" else 4)) + ew.families() + [["1"] * n for n in (1, 2, 3, 4)]
     units = [(v, kind) for v in vs for kind in (("list", "tuple") if len(v) <= 3 or len(v) in (8, 64) else ("list",))]
     for w in pmap(_work, permuted(units, "c16"), chunk=16):
@@ -192,6 +217,9 @@ def run(res, tier):
 def replay(data):
     fn = impl.binning.deterministic_choice
     case = data["case"]
+    if data.get("kind") == "choice:odd-equiv":
+        r = _odd_work([[float(x) if ("." in x or "e" in x or "inf" in x) else int(x) for x in case["weights"]]])
+        return bool(r["viol"]), (r["viol"][0]["observed"] if r["viol"] else "equivalent")
     acc = progcheck.Acc(viol_cap=10000)
     global IDS
     out = _work([(case["weights"], case["pop"])])
